@@ -278,6 +278,17 @@ def f_derivative(a):
             "sigma": a["G"]["V"], "L": a["L"]}
 
 
+def _rename_int(g):
+    """An injective renaming of the nonterminals to integers: the start symbol becomes 0 (a falsy name)."""
+    free = (k for k in range(0, -10000, -1) if k not in g.V)
+    names = {g.S: next(free)}
+    for r in g.rules:
+        for x in (r.head,) + tuple(y for y in r.body if y not in g.V):
+            if x not in names:
+                names[x] = next(free)
+    return g.rename(lambda x: names[x])
+
+
 TRANSFORMS = {
     # name: (callable, postconditions)
     "trim": (lambda g, o: g.trim(), ["trimmed", "nozero"]),
@@ -291,6 +302,7 @@ TRANSFORMS = {
     "cnf": (lambda g, o: g.cnf, ["cnf"]),
     "renumber": (lambda g, o: g.renumber(), []),
     "rename": (lambda g, o: g.rename(lambda x: ("r", x)), []),
+    "rename_int": (lambda g, o: _rename_int(g), []),
     "unfold": (lambda g, o: g.unfold(o["i"], o["k"]), []),
     "getitem_start": (lambda g, o: g[g.S], []),
 }
@@ -322,10 +334,11 @@ def f_transform(a):
 def f_treesum(a):
     g = build(a["G"], a["sr"], a.get("names", "str"), a.get("pre"), a.get("late", 0))
     how = a["how"]
+    kw = dict(a.get("kw") or {})                 # explicit tol= / maxiter= of the judged call
     if how == "treesum":
-        v = g.treesum()
+        v = g.treesum(**kw)
         if a.get("twice"):
-            v = g.treesum()
+            v = g.treesum(**kw)
         return {"op": "treesum1", "sr": srmodel(a["sr"]), "G": a["G"], "res": enc_w(g.R, coerce(g.R, v))}
     if how == "agenda" and "popscript" in a:
         # a pop order of the agenda, forced through the choosing chart (vchart.py)
@@ -336,7 +349,7 @@ def f_treesum(a):
         ch = {k: v for k, v in ch.items()}
         ch = type("C", (dict,), {"__missing__": lambda self, k: g.R.zero})(ch)
     elif how == "agenda":
-        ch = g.agenda(**({"tol": a["tol"]} if "tol" in a else {}))
+        ch = g.agenda(**({"tol": a["tol"]} if "tol" in a else kw))
     elif how == "naive":
         ch = g.naive_bottom_up()
     else:
